@@ -510,6 +510,10 @@ def oracles(ctx: Ctx) -> None:
         scen += [(name + "-without-any-config-file", None, extra) for name, text, extra in scen if name.startswith("cli-")]
         scen += [("split-both-all-config-enable", "[tool.refurb]\nenable_all = true\n", ["--disable-all", "--enable-all"]),
                  ("both-all-after-files-without-any-config-file", None, ["--disable-all", "x.py", "--enable-all"])]
+        # a value that cannot be used (a module to load that does not exist), given either way, in each mode that consults it
+        for mode_name, mode_args in (("lint", []), ("explain", ["--explain", "FURB123"]), ("explain-unknown-code", ["--explain", "ZZZ900"]), ("verbose", ["--verbose"])):
+            scen.append((f"load-missing-module-cli-{mode_name}", "", ["--load", "no_such_plugin_module", *mode_args]))
+            scen.append((f"load-missing-module-config-{mode_name}", '[tool.refurb]\nload = ["no_such_plugin_module"]\n', mode_args))
         for name, text, extra in scen:
             cfgp = Path(td) / "pyproject.toml"
             if cfgp.exists():
